@@ -129,7 +129,9 @@ func project(v interface{}) (M, error) {
 		return M{"t": "bool", "b": x}, nil
 	case string:
 		if !utf8.ValidString(x) {
-			return nil, &projErr{"string(invalid utf-8)"}
+			// a Go string that is not UTF-8 (e.g. $base64decode of arbitrary bytes): a string the model
+			// does not represent; the specification abstains on it
+			return M{"t": "strx"}, nil
 		}
 		return M{"t": "str", "s": cps(x)}, nil
 	case float64:
